@@ -32,7 +32,7 @@ ANCHORS = [
     "acnportal.acnsim.network.current:Current.__sub__",
     "acnportal.acnsim.network.current:Current.__mul__",
 ]
-REQUIRED = ["op:add", "op:remove", "op:update", "op:update_rename", "op:register_refused", "op:refused_add_unknown_station", "op:refused_remove_unknown_name", "op:refused_update_unknown_name", "subset_queries",
+REQUIRED = ["op:add", "op:remove", "op:update", "op:update_rename", "op:register_refused", "op:register_refused_existing_id", "op:refused_add_unknown_station", "op:refused_remove_unknown_name", "op:refused_update_unknown_name", "subset_queries",
             "tree:+", "tree:-", "tree:*left", "tree:*right", "tree:scalar_multiple_as_operand", "leaf:dict",
             "leaf:list", "leaf:str", "leaf:series", "leaf:tiny_coefficient"]
 BUDGET_S = {"quick": 200, "thorough": 2400}
@@ -243,12 +243,14 @@ def run_case(case, obs):
             log.append(["register"])
             if model or net.constraint_matrix is not None:
                 before = (list(net.station_ids), dict(net.voltages), dict(net.phase_angles))
+                newid = "zz" if rng.random() < 0.5 else rng.choice(ids)
                 try:
-                    net.register_evse(EVSE("zz", max_rate=32), 240, 0)
-                    obs.violate("register_after_constraints_allowed", "register_evse succeeded although constraints exist", ops=log[-6:])
+                    net.register_evse(EVSE(newid, max_rate=32), 240, 0)
+                    obs.violate("register_after_constraints_allowed", f"register_evse({newid!r}) succeeded although constraints exist "
+                                f"({'an already registered id' if newid in ids else 'a new id'})", ops=log[-6:])
                     return
                 except EVSERegistrationError:
-                    obs.ev("op:register_refused")
+                    obs.ev("op:register_refused" if newid == "zz" else "op:register_refused_existing_id")
                 after = (list(net.station_ids), dict(net.voltages), dict(net.phase_angles))
                 if before != after:
                     obs.violate("register_refused_but_state_changed", f"{before} -> {after}")
